@@ -37,7 +37,19 @@ def replayPhiOp (a : V) : R V := do
   pure (phiResult [("contents_are_last_min_n_C", contentsOk),
                    ("sample_only_stored_no_duplicates", sampleOk)])
 
+/-- op `replay_model32`: the int32-counter model started at position `p0` (the state after `p0`
+    insertions, older rows not tracked), then `k` rows tagged `0 … k-1` -/
+def replayModel32Op (a : V) : R V := do
+  let cap ← (← a.get "cap").asN
+  let p0 ← (← a.get "p0").asN
+  let k ← (← a.get "k").asN
+  let b0 : Buf32 Nat := { cap := cap, pos := BitVec.ofNat 32 p0, slots := List.replicate cap none }
+  let b := (List.range k).foldl add32 b0
+  pure (.o [("slots", .l (b.slots.map encOptN)), ("pos", .i b.pos.toInt),
+            ("current_size", .i (currentSize32 b)), ("mask", V.bs (validMask32 b))])
+
 def replayOps : List (String × (V → R V)) :=
-  [("replay_model", replayModelOp), ("replay_phi", replayPhiOp)]
+  [("replay_model", replayModelOp), ("replay_phi", replayPhiOp),
+   ("replay_model32", replayModel32Op)]
 
 end Lerax.Driver
